@@ -28,7 +28,7 @@ PJ = "join::par_join::ParJoin"
 
 
 def configs(tier):
-    return ["A"] if tier == "quick" else ["A", "F"]
+    return ["A", "F"]   # feature-gated impls (storage-event-control) can widen the marker traits: both tiers look at both builds
 
 
 def run(ctx):
